@@ -196,7 +196,8 @@ class Element(abc.MutableSequence):
                 if classes is not None and not classes.issubset(child.attrs.classes):
                     continue
                 for key, value in (attrs or {}).items():
-                    if child.attrs[key] != value:
+                    # attrs[key] is also "" for a missing key or a valueless attribute
+                    if key not in child.attrs or child.attrs[key] != (value or ""):
                         break
                 else:
                     yield child
